@@ -14,8 +14,8 @@ namespace CueVerif.Quote
 /-- the round-trip requirement for one form and one string -/
 def RoundTrips (E : Env) (f : Form) (s : Bytes) : Prop := unquote (quote E f s) = .ok s
 
-/-- the same for the tree with the proposed one-line repair of `singleLineHashCount` -/
-def RoundTripsFixed (E : Env) (f : Form) (s : Bytes) : Prop := unquote (quoteFixed E f s) = .ok s
+/-- the same for the OLD variant of `singleLineHashCount` (before /repo a2b8800) -/
+def RoundTripsOld (E : Env) (f : Form) (s : Bytes) : Prop := unquote (quoteOld E f s) = .ok s
 
 /-- "ASCII-only": every byte of the literal is below 0x80 -/
 def IsAscii (s : Bytes) : Prop := ∀ b ∈ s, b < 0x80
